@@ -55,14 +55,17 @@ pub fn check_bank_overlap(
                     (None, None) =>
                         true,
 
+                    // (the window of the second bank has not had
+                    // its own range check yet: do not overflow)
                     (Some(size1), None) =>
-                        outp1 + size1 > outp2,
+                        outp1.saturating_add(size1) > outp2,
 
                     (None, Some(size2)) =>
-                        outp2 + size2 > outp1,
+                        outp2.saturating_add(size2) > outp1,
 
                     (Some(size1), Some(size2)) =>
-                        outp1 + size1 > outp2 && outp2 + size2 > outp1,
+                        outp1.saturating_add(size1) > outp2 &&
+                        outp2.saturating_add(size2) > outp1,
                 }
             };
 
